@@ -81,3 +81,24 @@ func init() {
 		Prepare:     hTest("props/cli", "^TestC16", hOpts{QShards: 8, TShards: 16, QTimeout: 10 * time.Minute, TTimeout: 90 * time.Minute, Tools: []string{"tl2gen"}}),
 	}
 }
+
+func init() {
+	specs["C29"] = &spec{
+		LevelText:   "rapid-generated base schemas and sequences of 1..4 edits drawn only from the documented safe grammar - identity; append a field guarded by an unused bit of a local field mask (a # field of the same constructor that is not passed to another type); append a constructor to a union type (unions are referenced boxed only); add a new type; add a new function whose first argument is a field mask (also with further arguments) - with the new schema printed in a random layout; the verdict is computed in-process exactly as cmd/tlgen does (parse, GenerateCode for the new schema, CheckBackwardCompatibility(new, old)). Oracle: accept (nil); a rejection or a panic is a violation.",
+		LevelNote:   "Trusted: the harness' safe-edit grammar is a subset of the documented safe evolutions (README of backward_compatibility_samples and the property text).",
+		Technique:   "property-based testing (rapid): grammar-based edit sequences on generated schemas, verdict oracle",
+		Rule:        "non-trivial iff at least one non-identity edit was applied; distinct by (schema, edits)",
+		Prepare:     hTest("props/lint", "^TestC29", hOpts{QShards: 8, TShards: 16, QTimeout: 8 * time.Minute, TTimeout: 60 * time.Minute}),
+	}
+}
+
+func init() {
+	specs["C30"] = &spec{
+		LevelText:   "rapid-generated base schemas and exactly one edit from the documented unsafe grammar applied at a uniformly drawn position (constructor, field, nesting depth): remove a function / constructor / field / template argument (and its uses); change a primitive leaf of a field's type at any depth, including inside n*[...] and inside template arguments; change a field's mask bit or mask reference; add a mask to, or remove it from, an existing field; append an unmasked field; append a field that reuses a meaningful bit; give a bare-used single-constructor type a second constructor. Old and new schema are printed in independently shuffled declaration orders (the linter walks file order) and the new one in a random layout. The verdict is computed in-process as cmd/tlgen does; only pairs whose new schema still compiles count. Oracle: an error value - acceptance or a panic is a violation.",
+		LevelNote:   "Trusted: the harness' unsafe-edit grammar (each edit changes the TL1 wire format of some old value, which C28 checks independently for the accepted ones).",
+		Technique:   "property-based testing (rapid): grammar-based single-fault injection on generated schemas, verdict oracle",
+		Rule:        "non-trivial iff the edit applied and the new schema compiled; distinct by (schema, edit, order); classes per edit kind",
+		Floors:      []floor{{"change-field-type", 0.1, ""}, {"remove-field", 0.03, ""}},
+		Prepare:     hTest("props/lint", "^TestC30", hOpts{QShards: 8, TShards: 16, QTimeout: 8 * time.Minute, TTimeout: 60 * time.Minute}),
+	}
+}
